@@ -89,6 +89,25 @@ def i2(ctx):
                   'later alternate-constructor call overwrites it for all of them)' %
                   ((bad[0][0].qual, ast.unparse(bad[0][1])[:50]) if bad else ('', '')),
                   bad[0][0].loc(bad[0][1]) if bad else '', nontrivial=nfunc > 50))
+    # (2b) a container that can be built around somebody else's cache (fromcache) never closes that cache, and has no
+    #      finaliser that touches it: a temporary view that is garbage collected must not end the owner's transaction
+    for cname, ci in sorted(prog.classes.items()):
+        if 'fromcache' not in ci.methods:
+            continue
+        badc = None
+        for mname, f in ci.methods.items():
+            for n in ast.walk(f.node):
+                if isinstance(n, ast.Call) and isinstance(n.func, ast.Attribute) and n.func.attr in ('close', '__exit__') \
+                        and (dotted(n.func.value) or '') in ('self._cache', 'self.cache'):
+                    badc = (f, n)
+            if mname == '__del__':
+                badc = badc or (f, f.node)
+        obs.append(Ob('I2', '%s/never-closes-shared-cache' % cname, badc is None,
+                      '%s%s closes (or finalises) the cache it wraps: a %s made with fromcache() shares that cache with '
+                      'its owner, so dropping a temporary view closes the owner\'s connection - an open transaction is '
+                      'rolled back and later statements autocommit' %
+                      (cname, ('.' + badc[0].name) if badc else '', cname),
+                      badc[0].loc(badc[1]) if badc else 'diskcache/%s.py:%d' % (ci.module, ci.node.lineno)))
     # (3) alternate constructors (classmethods using cls.__new__) set the same instance fields as __init__,
     #     with the same value for every field that does not come from their distinguishing argument
     for cname, ci in sorted(prog.classes.items()):
